@@ -1119,3 +1119,27 @@ add("C12", "dump() keeps comments only on non-literal nodes", SERDE_F,
 add("C12", "benign: type slot tested through the raw attribute", SERDE_F,
     "            if node.type and node.type is not node:\n",
     "            if node._type is not None and node.type is not node:\n", "silent", 0)
+
+# ------------------------------------------------------------------------------- C09.d
+add("C09", "convert() drops the copy flag for the values of a dict", CORE,
+    "            values=_Array(expressions=[convert(v, copy=copy) for v in value.values()]),\n",
+    "            values=_Array(expressions=[convert(v) for v in value.values()]),\n", "C09.d")
+add("C09", "benign: convert() passes the copy flag positionally", CORE,
+    "            values=_Array(expressions=[convert(v, copy=copy) for v in value.values()]),\n",
+    "            values=_Array(expressions=[convert(v, copy) for v in value.values()]),\n", "silent", 0)
+
+# ------------------------------------------------------------------------------- C05.t (wrong-kind reports)
+_C05T_OLD = ("            if isinstance(arg, exp.Kwarg):\n                expr.set(arg.this.name, arg)\n            else:\n"
+             "                self.raise_error(f\"Expected key => value syntax for AI.FORECAST, got {arg}\")\n                break\n")
+add("C05", "AI.FORECAST argument of the wrong kind is reported and then used", "sqlglot/parsers/bigquery.py", _C05T_OLD,
+    "            if not isinstance(arg, exp.Kwarg):\n                self.raise_error(f\"Expected key => value syntax for AI.FORECAST, got {arg}\")\n            expr.set(arg.this.name, arg)\n", "C05.t")
+add("C05", "benign: AI.FORECAST argument of the wrong kind is reported and the loop left", "sqlglot/parsers/bigquery.py", _C05T_OLD,
+    "            if not isinstance(arg, exp.Kwarg):\n                self.raise_error(f\"Expected key => value syntax for AI.FORECAST, got {arg}\")\n                break\n            expr.set(arg.this.name, arg)\n", "silent", 0)
+
+# ------------------------------------------------------------------------------- C14.f
+add("C14", "merge_errors keeps only the first entry of each exception", "sqlglot/errors.py",
+    "    return [e_dict for error in errors for e_dict in error.errors]\n",
+    "    return [error.errors[0] for error in errors if error.errors]\n", "C14.f")
+add("C14", "benign: merge_errors written as a loop", "sqlglot/errors.py",
+    "    return [e_dict for error in errors for e_dict in error.errors]\n",
+    "    merged: list[dict[str, t.Any]] = []\n    for error in errors:\n        for e_dict in error.errors:\n            merged.append(e_dict)\n    return merged\n", "silent", 0)
